@@ -58,6 +58,12 @@ class C18(BtProp):
                     parts += [nm, spec_str(small_subtree(rng, 100 + 10 * j))]
                 header = "idiom pickup " + " ".join(parts)
                 root = 1
+                # an application that initialises its bookkeeping flags: `<task>_done` preset to False (or to 0) must
+                # not count as done (blank -> '_' as the idiom's key derivation does; names with other separators are
+                # left alone)
+                for nm in names:
+                    if all(ch.isalnum() or ch == "~" for ch in nm) and rng.random() < 0.3:
+                        ops.append("setbb /%s_done %s" % (nm.lower().replace("~", "_"), rng.choice(["b:0", "i:0", "n"])))
             elif kind == "oneshot":
                 sub = small_subtree(rng, 100)
                 header = "idiom oneshot %s %s %s %s" % (rng.choice(["/done", "/os/flag"]), "-", rng.choice("01"),
@@ -78,19 +84,29 @@ class C18(BtProp):
                     ops.append("setbb /c%d i:%d" % (j, rng.choice([0, 1])))
             else:
                 k = rng.choice([2, 2, 3, 4])
-                conds = " ".join("/c%d - eq i:1" % j for j in range(k))
+                shared = rng.random() < 0.35      # all conditions test ONE variable against different values
+                if shared:
+                    conds = " ".join("/m - eq i:%d" % j for j in range(k))
+                else:
+                    conds = " ".join("/c%d - eq i:1" % j for j in range(k))
                 subs = " ".join(spec_str(small_subtree(rng, 100 + 10 * j)) for j in range(k))
                 header = "idiom eitheror /eo %d %s %s" % (k, conds, subs)
                 root = 1
-                for j in range(k):
-                    ops.append("setbb /c%d i:%d" % (j, rng.choice([0, 1])))
+                if shared:
+                    ops.append("setbb /m i:%d" % rng.randrange(k + 1))
+                else:
+                    for j in range(k):
+                        ops.append("setbb /c%d i:%d" % (j, rng.choice([0, 1])))
             w = rng.choice([{"R": 40, "S": 40, "F": 20}, {"R": 50, "S": 45, "F": 5}, {"R": 30, "S": 30, "F": 40}])
             for _ in range(nops):
                 r = rng.random()
                 if r < 0.2 and ops:
                     ops.append("stop %d" % root)
                 elif r < 0.4 and kind in ("eitheror", "eitheror2"):
-                    ops.append("setbb /c%d i:%d" % (rng.randrange(k), rng.choice([0, 1])))
+                    if kind == "eitheror" and shared:
+                        ops.append("setbb /m i:%d" % rng.randrange(k + 1))
+                    else:
+                        ops.append("setbb /c%d i:%d" % (rng.randrange(k), rng.choice([0, 1])))
                 else:
                     now += 1
                     ops.append(tick_line(rng, now, w))
@@ -220,7 +236,16 @@ class C18(BtProp):
                 fresh = st_of(prev, spec[1]) != "R"
                 ent = [x for x in entered(o) if x in subs]
                 if fresh:
-                    truth = [prevW.get("/c%d" % j) == "i:1" for j in range(k)]
+                    from props_bt import _get, _cmp
+                    from common import val_parse
+                    a = [str(x) for x in xor[2]]
+                    truth = []
+                    for j in range(k):
+                        ck, cp, cop, cv = a[2 + 4 * j:6 + 4 * j]
+                        ok, v = _get(prevW, ck, cp)
+                        truth.append(bool(ok and _cmp(cop, v, val_parse(cv))))
+                    if any(not _get(prevW, a[2 + 4 * j], a[3 + 4 * j])[0] for j in range(k)):
+                        truth = [False] * k      # a missing condition variable fails the idiom before any choice
                     nt = sum(truth)
                     if nt == 1:
                         want = [subs[truth.index(True)]]
